@@ -189,7 +189,9 @@ def row_carry(model, rep, r):
             raise AnalysisError("System.%s not found" % meth)
         for loop in ast.walk(fn):
             if isinstance(loop, ast.For) and (sysrules.iter_is_role(loop, r["TOPO"]) or "_get_nodes" in ast.unparse(loop.iter) or "_get_sources" in ast.unparse(loop.iter)):
-                sysrules.iteration_state_rule(model, rep, "R4", "system.System.%s" % meth, "%s:%d" % (rel, loop.lineno), loop, "node loop", parent_attr=r["PARENTS"])
+                # a parent's slot is only known to be filled when the loop visits parents first (the topological order)
+                pa = r["PARENTS"] if sysrules.iter_is_role(loop, r["TOPO"]) else None
+                sysrules.iteration_state_rule(model, rep, "R4", "system.System.%s" % meth, "%s:%d" % (rel, loop.lineno), loop, "node loop", parent_attr=pa)
                 n += 1
     if n < 2:
         raise AnalysisError("per-node loops of phases()/_pars_and_limits() not found")
